@@ -3,6 +3,7 @@ plugins, so that the real TagBlock / Tag::parse_pair / block parsers can be exec
 
 The shape of the streams is what grammar.pest guarantees for LaxLiquidFile (checked by the E3 obligations):
   element in {Raw, Expression, Tag(TagInner(Identifier, token*)), InvalidLiquid}, terminated by exactly one EOI."""
+import re
 import z3
 from mirsym.exec import Unsupported
 from mirsym.values import *
@@ -156,6 +157,20 @@ def parser_stubs():
                 yield s2, 'ret', (Err(Adt('LiquidError', None, [Opaque(('msg', 'bad expression'))])) if bad else Ok(s2.ref(ChildEnv('expr', None, 0).abs(), True)))
         return g()
     def m_invalid(ctx, args, st):
+        # InvalidLiquidToken::parse_pair(self, next_elements) words its error by re-parsing the rest of the input with pest (not executable here).
+        # Its only effect on the parse state is whether it consumes the shared element stream to find the end of the input
+        # (`next_elements.last()`): that is read off the function's current MIR, the error text is not modelled.
+        body = ctx.ex.prog.find(r'^fn (?:\w+::)*<impl at crates/core/src/parser/parser.rs:\d+:\d+: \d+:\d+>::parse_pair\(_1: InvalidLiquidToken', 'core')
+        ctx.ex.encoded.setdefault(body.name, body.hash)
+        drains = any(re.search(r'as Iterator>::(last|count|for_each|fold|nth|collect)', ln) or re.search(r'as Iterator>::next\(', ln) for ln in body.text)
+        if drains:
+            r = args[1]
+            while isinstance(r, Ref) and isinstance(st.deref(r), Ref): r = st.deref(r)
+            itv = st.deref(r)
+            if isinstance(itv, Py) and itv.kind == 'iter' and itv.data[0] == 'list':
+                st.store(r, Py('iter', ('list', itv.data[1], len(itv.data[1]))))
+            else:
+                raise Unsupported(f'InvalidLiquidToken::parse_pair over {itv!r}')
         return ret(st, Err(Adt('LiquidError', None, [Opaque(('msg', 'invalid liquid'))])))
     def m_err_from_pair(ctx, args, st):
         return ret(st, Adt('LiquidError', None, [Opaque(('msg', 'pest error'))]))
@@ -163,7 +178,7 @@ def parser_stubs():
         return ret(st, mk_list_iter([]))
     return [(r'PluginRegistry::<.*>::plugin_names$', m_plugin_names, 'stub:plugin_names (only used to word the unknown-tag error)'),
             (r'^(?:parser::)?(?:parser::)?Exp::<\'_>::parse$', m_exp_parse, 'stub:Exp::parse (Ok renderable or Err)'),
-            (r'^(?:parser::)?(?:parser::)?InvalidLiquidToken::<\'_>::(parse|parse_pair)$', m_invalid, 'stub:InvalidLiquidToken::parse (always the strict parser\'s error)'),
+            (r'^(?:parser::)?(?:parser::)?InvalidLiquidToken::<\'_>::parse_pair$', m_invalid, 'stub:InvalidLiquidToken::parse_pair (drains the element stream, returns the strict parser\'s error)'),
             (r'^(?:parser::)?(?:parser::)?error_from_pair$|^(?:parser::)?(?:parser::)?convert_pest_error$|^pest::error::Error::<.*>::new_from_(span|pos)$', m_err_from_pair, 'stub:pest error construction (opaque error)'),
             (r'^<TagToken<\'_> as From<pest::iterators::Pair<\'_, (?:\w+::)*Rule>>>::from$|^(?:parser::)?(?:parser::)?TagToken::<\'_>::raise_error$', None, 'x')][:4]
 
